@@ -729,6 +729,13 @@ def str_getitem(interp, s, i):
             return r.val if r.is_const else SStr(r)
         lo = tm.const(0) if i.start is None else _norm_index(interp, int_term(i.start), n)
         hi = n if i.stop is None else _norm_index(interp, int_term(i.stop), n)
+        if t.op == 'app' and t.val == 'rev':
+            # a slice of a reversed string is the reversal of the mirrored slice
+            hi2 = tm.mk_ite(tm.mk_lt(hi, lo), lo, hi)
+            inner = t.args[0]
+            sub = tm.mk_strop('str.substr', (inner, tm.mk_sub(n, hi2), tm.mk_sub(hi2, lo)), tm.STR)
+            r = rev_term(interp, sub)
+            return r.val if r.is_const else SStr(r)
         ln = tm.mk_sub(hi, lo)
         r = tm.mk_strop('str.substr', (t, lo, tm.mk_ite(tm.mk_lt(ln, tm.const(0)), tm.const(0), ln)), tm.STR)
         return r.val if r.is_const else SStr(r)
@@ -758,9 +765,29 @@ def _norm_index(interp, k, n):
                      tm.mk_ite(tm.mk_lt(n, k), n, k))
 
 
+def rev_term(interp, t):
+    """Abstract reversal: uninterpreted `rev` with rev(rev(x)) = x, |rev(x)| = |x|; slices are pushed through it
+    (str_getitem): rev(x)[a:b] = rev(x[n-b:n-a]).  Theorems about string reversal."""
+    if t.is_const:
+        return tm.const(t.val[::-1])
+    if t.op == 'app' and t.val == 'rev':
+        return t.args[0]
+    if t.op == 'str.substr' and t.args[0].op == 'app' and t.args[0].val == 'rev':
+        pass
+    r = tm.app('rev', (t,), tm.STR)
+    if r not in interp.ctx.dec_seen:
+        interp.ctx.dec_seen.add(r)
+        interp.ctx.axioms.append(tm.mk_eq(tm.mk_len(r), tm.mk_len(t)))
+    return r
+
+
 def str_reverse(interp, s):
-    """s[::-1] for strings whose length the path bounds (forks on the length)."""
+    """s[::-1]: abstract reversal when the contract asks for it (hook str_reverse='abstract'), otherwise for strings
+    whose length the path bounds (forks on the length)."""
     t = str_term(interp, s)
+    if interp.hooks.get('str_reverse') == 'abstract':
+        r = rev_term(interp, t)
+        return r.val if r.is_const else SStr(r)
     n = tm.mk_len(t)
     bound = interp.hooks.get('str_bound', 4)
     for k in range(bound + 1):
@@ -1726,6 +1753,7 @@ def _rop(op):
 
 
 REAL_FUNS_EXTRA = {
+    'rev': lambda s: s[::-1],
     'fadd': _rop(_op.add), 'fsub': _rop(_op.sub), 'fmul': _rop(_op.mul), 'fdiv': _rop(_op.truediv),
     'fpow': _rop(_op.pow),
     'fadd_overflows': _ovf(_op.add), 'fsub_overflows': _ovf(_op.sub), 'fmul_overflows': _ovf(_op.mul),
